@@ -4,5 +4,5 @@ CONSTANTS
   G = 2
   MaxProg = 2
   Acc = {"Layers", "Layer", "String", "Dump", "LayerString", "LayerDump", "Flows", "Verify", "Data"}
-INVARIANTS PropAcceptsIdeal NotVacuous Export
+INVARIANTS PropAcceptsIdeal Export
 CHECK_DEADLOCK FALSE
